@@ -2,6 +2,8 @@ package main
 
 import (
 	"fmt"
+	seccomp "github.com/elastic/go-seccomp-bpf"
+	ucfgyaml "github.com/elastic/go-ucfg/yaml"
 	"strings"
 	"sync/atomic"
 	"time"
@@ -251,7 +253,47 @@ func checkC11(tier, replay string) int {
 	ctx.Cov["moved_to_thread_born_during_load"] = movedNew
 	ctx.Cov["schedules_where_migration_is_impossible_because_loader_is_wired_to_its_thread"] = impossible
 	ctx.Cov["children_in_which_the_migration_manoeuvre_worked_on_an_unpinned_control_goroutine"] = controlOK
-	ctx.Cov["rule"] = "states = {privileged, uid 65534} x NoNewPrivs x flags {0,tsync,log,tsync|log,4 (SPEC_ALLOW),5} x loader on main / other goroutine x thread placement at the single seam between prctl(2) and seccomp(2): stay, or forced migration (a helper goroutine takes over and wires itself to the loader's thread so that the runtime must resume the loader on another thread; with and without a pool of idle threads / with all idle threads wired); the manoeuvre is first shown to work on an unpinned control goroutine in the same process; each configuration runs the real LoadFilter in a fresh child; observed: result, tid and no_new_privs bit at the seam, per-thread NoNewPrivs/Seccomp before and after; plus every history of two (thorough: three) loads over two threads x {A,B} x NoNewPrivs x tsync in one process, privileged and unprivileged, judged step by step on /proc (the bit is per thread: a second load on another thread must set it again)"
+	// "requested" also means requested in a configuration: the documented keys of a Filter (no_new_privs, flag, policy) read
+	// through the configuration loader must arrive in the fields LoadFilter looks at
+	cfgForms := 0
+	if replay == "" {
+		for _, nnp := range []bool{true, false} {
+			for _, fl := range []uint32{0, 1, 2, 3} {
+				for _, form := range []string{"yaml", "json-as-yaml"} {
+					var text string
+					if form == "yaml" {
+						text = fmt.Sprintf("filter:\n  no_new_privs: %v\n  flag: %d\n  policy:\n    default_action: allow\n    syscalls:\n    - action: errno\n      names:\n      - getppid\n", nnp, fl)
+					} else {
+						text = fmt.Sprintf(`{"filter": {"no_new_privs": %v, "flag": %d, "policy": {"default_action": "allow", "syscalls": [{"action": "errno", "names": ["getppid"]}]}}}`, nnp, fl)
+					}
+					cfgForms++
+					conf, err := ucfgyaml.NewConfig([]byte(text))
+					var c struct {
+						Filter seccomp.Filter
+					}
+					if err == nil {
+						err = conf.Unpack(&c)
+					}
+					rep := map[string]any{"config_text": text}
+					if err != nil {
+						ctx.Violation("C11:config:rejected", fmt.Sprintf("a filter written with the documented keys does not load: %v\n%s", err, text), rep)
+						continue
+					}
+					if c.Filter.NoNewPrivs != nnp {
+						ctx.Violation("C11:config:no_new_privs-lost", fmt.Sprintf("no_new_privs: %v in the configuration arrives as Filter.NoNewPrivs=%v (%s form)", nnp, c.Filter.NoNewPrivs, form), rep)
+					}
+					if uint32(c.Filter.Flag) != fl {
+						ctx.Violation("C11:config:flag-lost", fmt.Sprintf("flag: %d in the configuration arrives as Filter.Flag=%d (%s form)", fl, c.Filter.Flag, form), rep)
+					}
+					if len(c.Filter.Policy.Syscalls) != 1 || c.Filter.Policy.DefaultAction != seccomp.ActionAllow {
+						ctx.Violation("C11:config:policy-lost", fmt.Sprintf("the policy of a configured filter arrives as %+v (%s form)", c.Filter.Policy, form), rep)
+					}
+				}
+			}
+		}
+	}
+	ctx.Cov["filters_read_through_the_configuration_loader"] = cfgForms
+	ctx.Cov["rule"] = "states = {privileged, uid 65534} x NoNewPrivs x flags {0,tsync,log,tsync|log,4 (SPEC_ALLOW),5} x loader on main / other goroutine x thread placement at the single seam between prctl(2) and seccomp(2): stay, or forced migration (a helper goroutine takes over and wires itself to the loader's thread so that the runtime must resume the loader on another thread; with and without a pool of idle threads / with all idle threads wired); the manoeuvre is first shown to work on an unpinned control goroutine in the same process; each configuration runs the real LoadFilter in a fresh child; observed: result, tid and no_new_privs bit at the seam, per-thread NoNewPrivs/Seccomp before and after; plus every history of two (thorough: three) loads over two threads x {A,B} x NoNewPrivs x tsync in one process, privileged and unprivileged, judged step by step on /proc (the bit is per thread: a second load on another thread must set it again); plus a Filter written with the documented keys (no_new_privs x 4 flag words, YAML and JSON text) read through the ucfg loader: the fields LoadFilter looks at must hold what the text says"
 	ctx.Assumptions = []string{"the only scheduling fact that matters between prctl and seccomp is which OS thread executes seccomp(2); instruction-level preemption inside the runtime is not enumerated", "if the loader is wired to its thread, migration is impossible and the property holds by construction (counted separately)"}
 	if replay != "" {
 		return finishReplay(ctx)
